@@ -89,11 +89,27 @@ def run(ctx):
         for inp, r in zip(b["inputs"], b["rows"]):
             if r["solved_by"] in ("input-balanced", "rule-based") and inp.count(">>") == 1 and pipe.closed_shell(inp) and not c02.placeholders(inp):
                 bases.append((inp, r))
+    # fixed bases that need something specific: alkali metal / hydride reagents (the four "no constraint" molecules of the
+    # redox rewrite) in every position, and deficits of several different heavy elements (several equally ranked completions)
+    fixed = ["[H-].[Na+].CCO>>CC[O-].[Na+]", "CCO.[Na+].[H-]>>CC[O-].[Na+]", "[K+].[H-].Oc1ccccc1>>[O-]c1ccccc1.[K+]", "CCO.[Na]>>CC[O-].[Na+]",
+             "[Li].CC=O>>CC[O-].[Li+]", "CC(=O)C.[H-]>>CC(C)[O-]", "[K].CCO>>CC[O-].[K+]", "CC(N)=O.O.[Na+].[OH-]>>CC(=O)O",
+             "CCBr.N.O>>CCO", "CC(=O)Cl.N.O>>CC(=O)O", "CCOC(C)=O.[Na+].[OH-].Cl>>CCO.CC(=O)O"]
+    import gen_data
+    from synrbl.rule_based import RuleBasedMethod
+    dbs = [d["smiles"] for d in RuleBasedMethod("id", "reaction", "reaction").rules if "." not in d["smiles"] and d["smiles"] not in ("[H]", "[O]")]
+    for _ in range(12 if ctx.quick() else 150):
+        extra = rng.sample(dbs, rng.randint(2, 3))
+        core = rng.choice(["CC(=O)O", "CCO", "c1ccccc1", "CCN", "CC(C)=O"])
+        fixed.append(".".join([core] + extra) + ">>" + core)
+    fb = pipe.run_batches([fixed[i:i + 12] for i in range(0, len(fixed), 12)])
+    fixed_rows = [(inp, r) for b in fb if len(b["rows"]) == len(b["inputs"]) for inp, r in zip(b["inputs"], b["rows"])
+                  if r["solved_by"] in ("input-balanced", "rule-based") and pipe.closed_shell(inp)]
+    ctx.count("inputs", "fixed_bases_composition_determined", len(fixed_rows))
     marker = [m for m in c02.marker_stream(rng, 0) if pipe.closed_shell(m)]
     nb = 110 if ctx.quick() else 1500
     rng.shuffle(bases)
     # stratify: all rule-based first (rarer), then input-balanced
-    bases = sorted(bases, key=lambda x: x[1]["solved_by"] != "rule-based")[:nb]
+    bases = fixed_rows + sorted(bases, key=lambda x: x[1]["solved_by"] != "rule-based")[:nb]
     nv = 4 if ctx.quick() else 6
     jobs, meta = [], []
     for inp, r in bases:
